@@ -1,0 +1,293 @@
+//go:build verif
+
+package server
+
+// Schedule points for the verification harness (/verif, properties C08/C10).
+//
+// Compiled only with `-tags verif`, and completely inert unless the
+// environment variable VERIF_SCHED_SOCK names a unix socket path: then the
+// server listens on it for a line protocol that lets a controller
+//
+//   - attach a name to a client connection (by its remote address),
+//   - park that connection's goroutine at the named points of the pre-write
+//     sequence of netServe / writeAOF / flushAOF and release it one step at a
+//     time,
+//   - gate the background flusher (backgroundSyncAOF) the same way, and
+//   - read the counters loggedSeq (commands appended to aofbuf) and flushedSeq
+//     (commands written to the file) and the dirty flag.
+//
+// Protocol (one request line, one reply line):
+//
+//	attach <remoteaddr> <name>   -> ok
+//	wait <name> <ms>             -> <status> | timeout     (next arrival of <name>)
+//	step <name> <ms>             -> <status> | timeout | err ...  (release, then wait)
+//	go <name>                    -> ok                     (release without waiting)
+//	detach <name>                -> ok                     (stop parking; releases if parked)
+//	stat                         -> <status of nobody>
+//
+// <status> = "<name> <point> park=<0|1> logged=<n> flushed=<n> myseq=<n> dirty=<0|1>"
+// The flusher's name is "bg"; it is gated as soon as the socket is configured.
+
+import (
+	"bufio"
+	"fmt"
+	"net"
+	"os"
+	"runtime"
+	"strconv"
+	"strings"
+	"sync"
+	"sync/atomic"
+	"time"
+)
+
+type verifThread struct {
+	name    string
+	release chan struct{}
+	arrived chan string
+	parked  atomic.Bool
+	off     atomic.Bool
+	myseq   atomic.Int64
+}
+
+var verifSchedOn atomic.Bool
+
+var verifSch struct {
+	mu      sync.Mutex
+	byAddr  map[string]*verifThread
+	byName  map[string]*verifThread
+	byGoid  map[int64]*verifThread
+	bg      *verifThread
+	logged  atomic.Int64
+	flushed atomic.Int64
+	srv     atomic.Pointer[Server]
+}
+
+func init() {
+	path := os.Getenv("VERIF_SCHED_SOCK")
+	if path == "" {
+		return
+	}
+	verifSch.byAddr = map[string]*verifThread{}
+	verifSch.byName = map[string]*verifThread{}
+	verifSch.byGoid = map[int64]*verifThread{}
+	verifSch.bg = verifNewThread("bg")
+	verifSch.byName["bg"] = verifSch.bg
+	os.Remove(path)
+	ln, err := net.Listen("unix", path)
+	if err != nil {
+		fmt.Fprintf(os.Stderr, "verif: cannot listen on %s: %v\n", path, err)
+		os.Exit(3)
+	}
+	verifSchedOn.Store(true)
+	go func() {
+		for {
+			c, err := ln.Accept()
+			if err != nil {
+				return
+			}
+			go verifControl(c)
+		}
+	}()
+}
+
+func verifNewThread(name string) *verifThread {
+	return &verifThread{name: name, release: make(chan struct{}, 1), arrived: make(chan string, 64)}
+}
+
+func verifGoid() int64 {
+	var buf [64]byte
+	n := runtime.Stack(buf[:], false)
+	// "goroutine 123 [running]:"
+	f := strings.Fields(string(buf[:n]))
+	if len(f) < 2 {
+		return -1
+	}
+	id, _ := strconv.ParseInt(f[1], 10, 64)
+	return id
+}
+
+func verifStatus(t *verifThread, point string, park bool) string {
+	dirty := 0
+	if s := verifSch.srv.Load(); s != nil && s.aofdirty.Load() {
+		dirty = 1
+	}
+	p := 0
+	if park {
+		p = 1
+	}
+	name, my := "-", int64(0)
+	if t != nil {
+		name, my = t.name, t.myseq.Load()
+	}
+	return fmt.Sprintf("%s %s park=%d logged=%d flushed=%d myseq=%d dirty=%d", name, point, p,
+		verifSch.logged.Load(), verifSch.flushed.Load(), my, dirty)
+}
+
+func (t *verifThread) at(point string, park bool) {
+	if t.off.Load() {
+		return
+	}
+	if park {
+		t.parked.Store(true)
+	}
+	t.arrived <- verifStatus(t, point, park)
+	if park {
+		<-t.release
+	}
+}
+
+// verifSchedConn is a schedule point of a client connection goroutine in netServe.
+func (s *Server) verifSchedConn(client *Client, point string, park bool) {
+	if !verifSchedOn.Load() {
+		return
+	}
+	verifSch.srv.Store(s)
+	verifSch.mu.Lock()
+	t := verifSch.byAddr[client.remoteAddr]
+	if t != nil {
+		verifSch.byGoid[verifGoid()] = t
+	}
+	verifSch.mu.Unlock()
+	if t != nil {
+		t.at(point, park)
+	}
+}
+
+// verifSched is a schedule point reached by whatever goroutine runs writeAOF /
+// flushAOF; it parks only goroutines of attached connections.
+func (s *Server) verifSched(point string) {
+	if !verifSchedOn.Load() {
+		return
+	}
+	verifSch.mu.Lock()
+	t := verifSch.byGoid[verifGoid()]
+	verifSch.mu.Unlock()
+	if t != nil {
+		t.at(point, true)
+	}
+}
+
+// verifSchedBG gates the background flusher.
+func (s *Server) verifSchedBG(point string) {
+	if !verifSchedOn.Load() {
+		return
+	}
+	verifSch.srv.Store(s)
+	verifSch.bg.at(point, true)
+}
+
+// verifLogged counts one command appended to aofbuf (called under the lock).
+func (s *Server) verifLogged() {
+	if !verifSchedOn.Load() {
+		return
+	}
+	n := verifSch.logged.Add(1)
+	verifSch.mu.Lock()
+	t := verifSch.byGoid[verifGoid()]
+	verifSch.mu.Unlock()
+	if t != nil {
+		t.myseq.Store(n)
+	}
+}
+
+// verifFlushed records that the whole buffer has been written to the file
+// (called under the lock, after the successful write).
+func (s *Server) verifFlushed() {
+	if !verifSchedOn.Load() {
+		return
+	}
+	verifSch.flushed.Store(verifSch.logged.Load())
+}
+
+func verifControl(c net.Conn) {
+	defer c.Close()
+	rd := bufio.NewReader(c)
+	for {
+		line, err := rd.ReadString('\n')
+		if err != nil {
+			return
+		}
+		f := strings.Fields(line)
+		reply := "err bad request"
+		wait := func(t *verifThread, ms int) string {
+			select {
+			case st := <-t.arrived:
+				return st
+			case <-time.After(time.Duration(ms) * time.Millisecond):
+				return "timeout"
+			}
+		}
+		lookup := func(name string) *verifThread {
+			verifSch.mu.Lock()
+			defer verifSch.mu.Unlock()
+			return verifSch.byName[name]
+		}
+		switch {
+		case len(f) == 3 && f[0] == "attach":
+			t := verifNewThread(f[2])
+			verifSch.mu.Lock()
+			verifSch.byAddr[f[1]] = t
+			verifSch.byName[f[2]] = t
+			verifSch.mu.Unlock()
+			reply = "ok"
+		case len(f) == 3 && f[0] == "wait":
+			if t := lookup(f[1]); t != nil {
+				ms, _ := strconv.Atoi(f[2])
+				reply = wait(t, ms)
+			} else {
+				reply = "err unknown thread"
+			}
+		case len(f) == 3 && f[0] == "step":
+			if t := lookup(f[1]); t == nil {
+				reply = "err unknown thread"
+			} else if !t.parked.Load() {
+				reply = "err not parked"
+			} else {
+				ms, _ := strconv.Atoi(f[2])
+				t.parked.Store(false)
+				t.release <- struct{}{}
+				reply = wait(t, ms)
+			}
+		case len(f) == 2 && f[0] == "go":
+			if t := lookup(f[1]); t == nil {
+				reply = "err unknown thread"
+			} else if !t.parked.Load() {
+				reply = "err not parked"
+			} else {
+				t.parked.Store(false)
+				t.release <- struct{}{}
+				reply = "ok"
+			}
+		case len(f) == 2 && f[0] == "detach":
+			if t := lookup(f[1]); t != nil {
+				t.off.Store(true)
+				if t.parked.Load() {
+					t.parked.Store(false)
+					t.release <- struct{}{}
+				}
+				verifSch.mu.Lock()
+				for a, u := range verifSch.byAddr {
+					if u == t {
+						delete(verifSch.byAddr, a)
+					}
+				}
+				for g, u := range verifSch.byGoid {
+					if u == t {
+						delete(verifSch.byGoid, g)
+					}
+				}
+				if t != verifSch.bg {
+					delete(verifSch.byName, f[1])
+				}
+				verifSch.mu.Unlock()
+			}
+			reply = "ok"
+		case len(f) == 1 && f[0] == "stat":
+			reply = verifStatus(nil, "-", false)
+		}
+		if _, err := c.Write([]byte(reply + "\n")); err != nil {
+			return
+		}
+	}
+}
